@@ -50,6 +50,23 @@ struct Node {
     weak: RefCell<Vec<Weak<Node>>>,
 }
 
+impl PartialEq for Node {
+    fn eq(&self, o: &Node) -> bool {
+        self.id == o.id
+    }
+}
+impl Eq for Node {}
+impl PartialOrd for Node {
+    fn partial_cmp(&self, o: &Node) -> Option<std::cmp::Ordering> {
+        Some(self.id.cmp(&o.id))
+    }
+}
+impl Ord for Node {
+    fn cmp(&self, o: &Node) -> std::cmp::Ordering {
+        self.id.cmp(&o.id)
+    }
+}
+
 impl Clone for Node {
     fn clone(&self) -> Node {
         out(format!("tclone {}", self.id));
@@ -253,6 +270,26 @@ fn run_op(op: &Op, _in_dtor: bool) {
                     });
                     items.sort();
                     out(format!("ret links {}", if items.is_empty() { "-".to_string() } else { items.join(",") }));
+                }
+                "new_from" | "new_from_box" => {
+                    junk();
+                    let id = num(a[1]);
+                    let n = Node { id, canary: Cell::new(ALIVE), strong: RefCell::new(vec![]), weak: RefCell::new(vec![]) };
+                    let r: Rc<Node> = if a[0] == "new_from" { Rc::from(n) } else { Rc::from(Box::new(n)) };
+                    put(a[2], H::Rc(r));
+                }
+                "eq" | "ne" | "lt" | "le" | "gt" | "ge" | "cmp" | "partial_cmp" => {
+                    let s = with_rc(a[1], |x| with_rc(a[2], |y| match a[0] {
+                        "eq" => (x == y).to_string(),
+                        "ne" => (x != y).to_string(),
+                        "lt" => (x < y).to_string(),
+                        "le" => (x <= y).to_string(),
+                        "gt" => (x > y).to_string(),
+                        "ge" => (x >= y).to_string(),
+                        "cmp" => format!("{:?}", x.cmp(y)),
+                        _ => format!("{:?}", x.partial_cmp(y).unwrap()),
+                    }));
+                    out(format!("ret {} {}", a[0], s));
                 }
                 "clone" => {
                     let r = with_rc(a[1], |r| Rc::clone(r));
